@@ -357,3 +357,19 @@ Proof.
   inversion Hx'; inversion Hy'; subst x y. cbn [is_null] in H.
   destruct H as (c & E & H). vm_compute in E. inversion E; subst c. cbn in H. lia.
 Qed.
+
+(* ---------- why the scope says "one scalar kind": numbers are compared by value, a number and a
+   string by their texts, so a column mixing them has a cycle 9 < 10 < "5" < 9; and NaN is "less"
+   than itself ---------- *)
+
+Definition kv (v : value) : value := VObj [("k"%string, v)].
+
+Lemma mixed_kinds_cycle :
+  let less := order_less [(["k"%string], true)] in
+  less (kv (VNum 9%float)) (kv (VNum 10%float)) = Ok true /\
+  less (kv (VNum 10%float)) (kv (VStr "5")) = Ok true /\
+  less (kv (VStr "5")) (kv (VNum 9%float)) = Ok true /\
+  less (kv (VNum nan)) (kv (VNum nan)) = Ok true /\
+  sort_scope_b [kv (VNum 9%float); kv (VNum 10%float); kv (VStr "5")] [(["k"%string], true)] = false /\
+  sort_scope_b [kv (VNum nan)] [(["k"%string], true)] = false.
+Proof. vm_compute. repeat split. Qed.
